@@ -529,6 +529,20 @@ pub fn faults_of(step: &Value, h: &Hist, i: usize) -> Vec<Fault> {
         let mut v = ds.clone(); v[j]["serial"] = json!(ds[j]["serial"].as_u64().unwrap().wrapping_add(1));
         res.push(("l.entry_serial_plus1".into(), with_list(v), None));
     }
+    // pairs of list mutations that keep the number of entries: one entry dropped, another one duplicated
+    // (a gapped AND duplicated list has the right length, first and last serial)
+    for j in 0..l {
+        for m in 0..l {
+            if m == j { continue }
+            let mut v: Vec<Value> = Vec::new();
+            for (k, e) in ds.iter().enumerate() {
+                if k == j { continue }
+                v.push(e.clone());
+                if k == m { v.push(e.clone()); }
+            }
+            res.push(("l.gap_and_dup".into(), with_list(v), None));
+        }
+    }
     if l > 1 {
         let mut v = ds.clone(); v.reverse(); res.push(("l.reversed".into(), with_list(v), None));
         let mut v = ds.clone(); v.rotate_left(1); res.push(("l.rotated".into(), with_list(v), None));
